@@ -609,7 +609,7 @@ func run(r *core.Run) {
 	r.Bound("activities", len(acts))
 	r.Bound("history_length", 2)
 	r.Rule("targets: hand-written programs that print, enumerate and compare sorted maps of 1..12 keys in 3 insertion orders through 9 sinks, closures with 1..8 captured bindings, errors with stack traces, gensym, packages, help listings, schema validators, JSON; plus one target per exported stdlib/core callable holding its error messages for 13 argument values in 2 positions. " +
-		"(1) every target after every sequence of <=2 activities (8 kinds) run in other runtimes of this process vs a fresh process; (2) target pairs under every schedule up to the preemption bound vs solo; (3) two fresh processes with different heap layouts, and a pointer-pattern scan of every transcript; (4) R repeated in-process runs (statistical: samples Go's map-iteration seed); (5) for EVERY exported callable the table of calls (q V) and (q V W) over 9 values (empty / homogeneous / heterogeneous lists, string, int, symbol, vector, map, bytes) run three times in a child process with one P and the collector off, where process-wide free lists hand residue back deterministically: later runs vs the first; (6) for EVERY exported callable each single call (q V) and (q V W) over 9 values (one a string malformed in every library syntax) loaded on its own, in a child process where the same call was first made from another file, position and function in another runtime, vs a child process where it was not: value / condition, message, location and trace as the host sees them; (7) every target in fresh processes started under 6 other host environments (time zones on both sides of every offset the time targets use, a Turkish locale, another home directory and user) vs the ambient one. Non-trivial = distinct target")
+		"(1) every target after every sequence of <=2 activities (8 kinds) run in other runtimes of this process vs a fresh process; (2) target pairs under every schedule up to the preemption bound vs solo; (3) two fresh processes with different heap layouts, and a pointer-pattern scan of every transcript; (4) R repeated in-process runs (statistical: samples Go's map-iteration seed); (5) for EVERY exported callable the table of calls (q V) and (q V W) over 9 values (empty / homogeneous / heterogeneous lists, string, int, symbol, vector, map, bytes) run three times in a child process with one P and the collector off, where process-wide free lists hand residue back deterministically: later runs vs the first; (6) for EVERY exported callable each single call (q V) and (q V W) over 9 values (one a string malformed in every library syntax) loaded on its own, in a child process where the same call was first made from another file, position and function in another runtime, vs a child process where it was not: value / condition, message, location and trace as the host sees them; (7) every target in fresh processes started under 12 other host environments (time zones on both sides of every offset the time targets use, a Turkish locale, another home directory and user) vs the ambient one. Non-trivial = distinct target")
 	r.Assume("transcript = printed value, stderr, error condition + message + rendered stack trace, step count")
 	r.Assume("oracle 4 (map iteration order) is sampling, not enumeration: the Go runtime's per-iteration random start cannot be owned without patching the runtime; a control (a bare Go map of 12 keys iterated R times must show >= 2 orders) is measured on every run")
 
@@ -882,6 +882,13 @@ var hostEnvs = []string{
 	"TZ=America/New_York",
 	"TZ=Asia/Kolkata",
 	"TZ=Pacific/Chatham",
+	// for every offset the time targets write, a zone that uses it in winter and one that uses it in summer
+	"TZ=Europe/London",
+	"TZ=Atlantic/Azores",
+	"TZ=Europe/Helsinki",
+	"TZ=America/Chicago",
+	"TZ=America/Halifax",
+	"TZ=America/Anchorage",
 	"TZ=America/Los_Angeles,LANG=tr_TR.UTF-8,LC_ALL=tr_TR.UTF-8,HOME=/nonexistent-home,USER=nobody",
 }
 
